@@ -10,7 +10,7 @@ RULE = (
     "the fan-in-limited circuit the function used: single output, topological list order, cover of all gates in the cone of the outputs, internal nodes "
     "with identical type and fan-in, pairwise disjoint ({i} + ancestors(i)) for the inputs of each supergate; construct_supercircuit=True on single-output "
     "circuits: harness substitutes each supergate for its blackbox and compares the output function for ALL input valuations. "
-    "non-trivial = >=1 reconvergent fan-out or >=2 supergates; distinct = canonical circuit + mode"
+    "Also circuits deeper than the recursion limit (chains of 1100..1500 inverters, ladders of 500..650 nested reconvergent blocks). non-trivial = >=1 reconvergent fan-out or >=2 supergates; distinct = canonical circuit + mode"
 )
 BUDGET = {
     "quick": {"workers": 16, "cases": 900, "secs": 60, "min_cases": 7200},
